@@ -233,6 +233,8 @@ def _discharge(rec, it, assumptions, mk, kwargs, key_prefix, timeout_ms, robust,
                     continue
                 pairs.append((ex, ey))
             if not pairs:
+                # both sides are the identical term (hash-consed AST): discharged without a solver call
+                rec.obligations.append({"label": it.label, "verdict": "unsat", "time_s": 0.0, "syntactic": True, "identical_terms": True})
                 return
         else:
             try:
